@@ -32,7 +32,7 @@ func harnessClosure(harnessDir string, wants []string) ([]string, error) {
 		return src, nil
 	}
 	fset := token.NewFileSet()
-	declIn := map[string]string{}     // top-level name -> file
+	declIn := map[string]string{}      // top-level name -> file
 	methodsOf := map[string][]string{} // receiver type -> files declaring methods on it
 	refs := map[string]map[string]bool{}
 	for _, f := range src {
